@@ -3,24 +3,35 @@
 package core
 
 import (
+	"context"
 	"fmt"
+	"io"
 	"net"
+	"net/http"
+	"net/url"
 	"regexp"
 	"strings"
 	"testing"
 	"time"
 
+	"github.com/bluenviron/gortmplib"
+	"github.com/bluenviron/gortsplib/v5"
+	"github.com/bluenviron/gortsplib/v5/pkg/description"
+	"github.com/bluenviron/gortsplib/v5/pkg/format"
+	srt "github.com/datarhei/gosrt"
+	"github.com/pion/rtp"
+
 	"verif.local/vmon"
 )
 
-var c20bLine = regexp.MustCompile(`\[RTSP\] \[(session|conn) ([^\]]+)\] (runOn[A-Za-z]+) command (started|stopped|launched)`)
+var c20bLine = regexp.MustCompile(`\[(RTSP|RTMP|SRT|HLS|WebRTC)\] \[(session|conn|muxer) ([^\]]+)\] (runOn[A-Za-z]+) command (started|stopped|launched)`)
 
 // C20 (second part): per-reader (runOnRead/runOnUnread) and per-connection (runOnConnect/runOnDisconnect)
 // hooks are fired by the protocol servers: a real Core with real RTSP clients.
 func TestVerifC20Servers(t *testing.T) {
 	r := vmon.Begin(t, "C20", "exploration")
 	rng := r.Rand("c20b")
-	b := bbStart(t, map[string]bool{"rtsp": true}, "runOnConnect: 'true'\nrunOnDisconnect: 'true'\npaths:\n  all_others:\n    runOnRead: 'true'\n    runOnUnread: 'true'\n")
+	b := bbStart(t, map[string]bool{"rtsp": true, "hls": true, "rtmp": true, "srt": true}, "hlsAlwaysRemux: no\nrunOnConnect: 'true'\nrunOnDisconnect: 'true'\npaths:\n  all_others:\n    runOnRead: 'true'\n    runOnUnread: 'true'\n")
 	pub, err := b.bbPublish("cam1", "", "")
 	if err != nil {
 		b.close()
@@ -34,10 +45,28 @@ func TestVerifC20Servers(t *testing.T) {
 			time.Sleep(5 * time.Millisecond)
 		}
 	}()
+	// a second stream that HLS cannot carry (VP8 only): an HLS reader of it is refused after it was admitted as a reader
+	vp8 := &description.Media{Type: description.MediaTypeVideo, Formats: []format.Format{&format.VP8{PayloadTyp: 96}}}
+	vp8c := &gortsplib.Client{ReadTimeout: 5 * time.Second, WriteTimeout: 5 * time.Second}
+	proto := gortsplib.ProtocolTCP
+	vp8c.Protocol = &proto
+	if err = vp8c.StartRecording(fmt.Sprintf("rtsp://127.0.0.1:%d/vp8only", b.ports["rtsp"]), &description.Session{Medias: []*description.Media{vp8}}); err != nil {
+		b.close()
+		t.Fatalf("harness: cannot publish VP8: %v", err)
+	}
+	go func() {
+		for i := 0; i < 3000; i++ {
+			if vp8c.WritePacketRTP(vp8, &rtp.Packet{Header: rtp.Header{Version: 2, PayloadType: 96, SequenceNumber: uint16(i), Timestamp: uint32(i) * 3000, SSRC: 9, Marker: true}, Payload: []byte{0x10, 0x10, 0x02, 0x00, 0x9d, 0x01, 0x2a, 0x10, 0x00, 0x10, 0x00}}) != nil {
+				return
+			}
+			time.Sleep(5 * time.Millisecond)
+		}
+	}()
+	hc := &http.Client{Timeout: 10 * time.Second}
 	n := r.N(40, 1200)
 	kinds := map[string]int{}
 	for i := 0; i < n; i++ {
-		kind := []string{"play-close", "play-pause-close", "play-pause-play-close", "setup-only-close", "connect-only", "describe-only", "play-pause-pause-close"}[rng.IntN(7)]
+		kind := []string{"play-close", "play-pause-close", "play-pause-play-close", "setup-only-close", "connect-only", "describe-only", "play-pause-pause-close", "hls-session", "hls-unplayable", "rtmp-read", "srt-read"}[rng.IntN(11)]
 		kinds[kind]++
 		r.Eval(fmt.Sprintf("%s|%d", kind, i))
 		switch kind {
@@ -47,6 +76,36 @@ func TestVerifC20Servers(t *testing.T) {
 				c.Write([]byte("OPTIONS rtsp://127.0.0.1/ RTSP/1.0\r\nCSeq: 1\r\n\r\n")) //nolint:errcheck
 				time.Sleep(time.Duration(rng.IntN(5)) * time.Millisecond)
 				c.Close()
+			}
+		case "hls-session", "hls-unplayable":
+			name := map[string]string{"hls-session": "cam1", "hls-unplayable": "vp8only"}[kind]
+			res, err2 := hc.Get(b.url("hls", "/"+name+"/index.m3u8"))
+			if err2 == nil {
+				io.Copy(io.Discard, res.Body) //nolint:errcheck
+				res.Body.Close()
+				r.SetAdd("hls_outcomes", fmt.Sprintf("%s -> %d", kind, res.StatusCode))
+			}
+		case "rtmp-read":
+			u, _ := url.Parse(fmt.Sprintf("rtmp://127.0.0.1:%d/cam1", b.ports["rtmp"]))
+			c := &gortmplib.Client{URL: u, Publish: false}
+			ctx, cancel := context.WithTimeout(context.Background(), 5*time.Second)
+			err2 := c.Initialize(ctx)
+			cancel()
+			if err2 == nil {
+				time.Sleep(time.Duration(20+rng.IntN(60)) * time.Millisecond)
+				c.Close()
+			}
+			r.SetAdd("rtmp_outcomes", fmt.Sprintf("%v", err2 == nil))
+		case "srt-read":
+			cf := srt.DefaultConfig()
+			address, err2 := cf.UnmarshalURL(fmt.Sprintf("srt://127.0.0.1:%d?streamid=read:cam1", b.ports["srt"]))
+			if err2 == nil && cf.Validate() == nil {
+				conn, err3 := srt.Dial("srt", address, cf)
+				if err3 == nil {
+					time.Sleep(time.Duration(20+rng.IntN(60)) * time.Millisecond)
+					conn.Close()
+				}
+				r.SetAdd("srt_outcomes", fmt.Sprintf("%v", err3 == nil))
 			}
 		case "describe-only":
 			rd, err2 := b.bbRead("cam1", "", "", false)
@@ -82,6 +141,7 @@ func TestVerifC20Servers(t *testing.T) {
 		}
 	}
 	pub.close()
+	vp8c.Close()
 	time.Sleep(300 * time.Millisecond) // let the server notice the closed connections (not a verdict: the final check runs after Close)
 	b.close()
 	// parse the log: per session / per connection (S T L)*
@@ -94,13 +154,13 @@ func TestVerifC20Servers(t *testing.T) {
 			continue
 		}
 		fam, tok := "", ""
-		switch m[3] {
+		switch m[4] {
 		case "runOnRead":
-			fam, tok = "read", map[string]string{"started": "S", "stopped": "T"}[m[4]]
+			fam, tok = "read", map[string]string{"started": "S", "stopped": "T"}[m[5]]
 		case "runOnUnread":
 			fam, tok = "read", "L"
 		case "runOnConnect":
-			fam, tok = "connect", map[string]string{"started": "S", "stopped": "T"}[m[4]]
+			fam, tok = "connect", map[string]string{"started": "S", "stopped": "T"}[m[5]]
 		case "runOnDisconnect":
 			fam, tok = "connect", "L"
 		default:
@@ -110,7 +170,8 @@ func TestVerifC20Servers(t *testing.T) {
 			continue
 		}
 		events++
-		key := m[1] + " " + m[2] + "/" + fam
+		r.Count("hook_events_"+m[1]+"_"+fam, 1)
+		key := m[1] + " " + m[2] + " " + m[3] + "/" + fam
 		seqs[key] = append(seqs[key], tok)
 		prev := state[key]
 		valid := (tok == "S" && (prev == "" || prev == "L")) || (tok == "T" && prev == "S") || (tok == "L" && prev == "T")
@@ -131,6 +192,6 @@ func TestVerifC20Servers(t *testing.T) {
 		r.Inconclusive("only %d hook events observed for %d client sessions", events, n)
 	}
 	r.Sample(map[string]any{"client_behaviours": kinds, "hook_events": events})
-	r.Finish("real Core with RTSP enabled, runOnConnect/runOnDisconnect and runOnRead/runOnUnread configured; one real publisher and real gortsplib readers behaving as: play+close, play+pause+close, play+pause+play+close, play+pause+pause+close, setup only, describe only, bare TCP connection; the hook lines of the server log are projected per session / per connection and must match (started stopped launched)*, with nothing left open after shutdown. non-trivial = distinct client session",
+	r.Finish("real Core with RTSP, HLS (on demand), RTMP and SRT enabled, runOnConnect/runOnDisconnect and runOnRead/runOnUnread configured; a real H264 publisher, a VP8-only publisher (a stream HLS cannot carry) and real readers behaving as: RTSP play+close, play+pause+close, play+pause+play+close, play+pause+pause+close, setup only, describe only, bare TCP connection, HLS session on the H264 stream, HLS request for the VP8-only stream (admitted as reader, then refused), RTMP read, SRT read; the hook lines of the server log are projected per session / per connection and must match (started stopped launched)*, with nothing left open after shutdown. non-trivial = distinct client session",
 		"log lines are written synchronously by hooks.*; the log file is read after Core.Close()")
 }
